@@ -326,6 +326,7 @@ theorem anFirst_sound (tbl : Table) (u : Nat) (recA : List ASt → List Act → 
   | send m => simp only [anFirst, Option.some.injEq] at h; subst h; exact soundFor_prim sts _
   | recv m => simp only [anFirst, Option.some.injEq] at h; subst h; exact soundFor_prim sts _
   | wait m => simp only [anFirst, Option.some.injEq] at h; subst h; exact soundFor_prim sts _
+  | blockingCall m => simp only [anFirst, Option.some.injEq] at h; subst h; exact soundFor_prim sts _
   | read m => simp only [anFirst, Option.some.injEq] at h; subst h; exact soundFor_prim sts _
   | write m => simp only [anFirst, Option.some.injEq] at h; subst h; exact soundFor_prim sts _
   | unknown m => simp only [anFirst, Option.some.injEq] at h; subst h; exact soundFor_prim sts _
@@ -513,6 +514,7 @@ theorem anFirst_spawn (tbl : Table) (u fa n : Nat)
   | send m => exact spawnFor_nospawn _ _ _ _ _ _
   | recv m => exact spawnFor_nospawn _ _ _ _ _ _
   | wait m => exact spawnFor_nospawn _ _ _ _ _ _
+  | blockingCall m => exact spawnFor_nospawn _ _ _ _ _ _
   | read m => exact spawnFor_nospawn _ _ _ _ _ _
   | write m => exact spawnFor_nospawn _ _ _ _ _ _
   | unknown m => exact spawnFor_nospawn _ _ _ _ _ _
